@@ -131,6 +131,11 @@ def rule_block(ctx, rep):
         "int 0; return": (["int 0", "return"], set()),
         "pushint 0; return": (["pushint 0", "return"], set()),
         "int 1; return": (["int 1", "return"], U),
+        "intc_0 (unresolved constant); return": (["intc_0", "return"], U),
+        "intc 5 (unresolved constant); return": (["intc 5", "return"], U),
+        "int pay (named constant); return": (["int pay", "return"], U),
+        "load 0; return": (["load 0", "return"], U),
+        "intc_0 (unresolved); assert": (["intc_0", "assert"], U),
         "return unknown": (["return"], U),
         "assert A; int 0; return": (A + ["assert", "int 0", "return"], set()),
         "err": (["err"], set()),
@@ -355,6 +360,15 @@ def rule_eqn(ctx, rep):
         elif kind == "failing leaf":
             g.block("F2", ["f1:", "err"]); g.edge("F0", "F2")
             g.subroutine("f", "F0", ["F0", "F1", "F2"])
+        elif kind == "leaf that falls off the end of the program":
+            g.block("F2", ["f1:", "int 1"]); g.edge("F0", "F2")
+            g.subroutine("f", "F0", ["F0", "F1", "F2"])
+        elif kind == "callsub without return point as exit":
+            g.block("F2", ["f1:", "callsub g"]); g.edge("F0", "F2")
+            g.block("G0", ["g:", "int 1", "return"])
+            g.subroutine("f", "F0", ["F0", "F1", "F2"]); g.subroutine("g", "G0", ["G0"])
+            g.call("F2", "g")
+            subs = ["f", "g"]
         else:   # the accepting leaf is in a subroutine called by the callee
             g.block("F2", ["f1:", "callsub g"]); g.block("F3", ["retsub"]); g.edge("F0", "F2"); g.edge("F2", "F3")
             g.block("G0", ["g:", "txn Fee", "bnz g1"]); g.block("G1", ["retsub"]); g.block("G2", ["g1:", "int 1", "return"])
@@ -366,7 +380,8 @@ def rule_eqn(ctx, rep):
         g.call("C", "f")
         return g, g.function("main", subs)
 
-    for kind, want in (("accepting leaf", {2, 3, 4}), ("failing leaf", {2, 3}), ("accepting leaf in a nested callee", {2, 3, 4})):
+    for kind, want in (("accepting leaf", {2, 3, 4}), ("failing leaf", {2, 3}), ("accepting leaf in a nested callee", {2, 3, 4}),
+                       ("leaf that falls off the end of the program", {2, 3, 4}), ("callsub without return point as exit", {2, 3, 4})):
         g, fn = mixed(kind)
         me, lo = setup(g, fn, {n: set() for n in g.blocks}, {})
         lo[g.blocks["R"]] = {1, 2, 3}
